@@ -20,6 +20,7 @@ PID, SEL = "C06", 6
 ASSUMPTIONS = [
     "exhaustive scope: containers of <= 3 elements over {0,1,2} (List[int], Set[int]; Dict[str,int] with keys '', 'a7', 'a8'; List[str] over those strings) x with_/update_/transform_/without_<item> x _index in [-len-1, len+1] x _insert x _by_index in {default, True, False} x keys/values present and absent, container present or missing (quick tier: a seeded sample of the enumerated calls, thorough tier: all of them)",
     "keyed spec elements: List[K1]/Dict[str,K1] with K1 keyed, attribute with and without an item preparer (identity), container missing / empty / one element: bare keys promoted by with_/update_<item> with and without keywords, _index, _insert (48 histories, both tiers); List[K1] elements addressed by an element object (equal to the stored element, only key-equal, absent key) and Dict[str,K1] elements replaced / updated through an element object with other attributes (16 histories, both tiers)",
+    "flag combinations of the list helpers beyond (_index x _insert): with_<item>(x, _insert=True) WITHOUT _index (appended; container missing / empty / populated, List[int], List[str], item preparer, default_factory, ill-typed item, no item; keyed elements from a bare key, keywords, an element object), _index=None given explicitly (TypeError), every flag under _if=False, explicit _by_index on a missing container -- aimed block in both tiers (c06_gen.flag_combinations), and the same combination in the enumerated scope, the random chains, the spec-element histories and the KeyedList probe",
     "beyond the exhaustive scope: random containers of up to 8 elements edited by up to 8 consecutive calls (copy and in place), List/Dict of (keyed) spec classes with keywords, bare keys and dict-as-arguments from the shared history grammar (conforming arguments)",
     "KeyedList/KeyedSet-typed attributes are outside the Coq instance model (their container semantics are C13/C14); KeyedList attributes are covered by an implementation-level probe (harness/c06_probe.py): chains of element-helper calls addressed by index, by key and by element object (equal: found by value; only key-equal: not found), compared in Python with a plain list of records, plus agreement of the by-key and by-index views",
     "KeyedSet attributes of keyed spec elements: implementation-level probe (harness/c06_kset_probe.py): aimed one-call chains and random chains of with_/update_/transform_/without_<item> addressed by bare key, by an equal element object and by a key-equal element object whose other attributes differ, copy and in place, with and without an item preparer, compared in Python with a plain dict of elements by key (order not compared); a transform must be handed the stored element",
@@ -43,6 +44,8 @@ def main(tier, replay=None):
     cases, stats = g6.exhaustive(tier, rng)
     keyed = g6.keyed_elements(tier, rng) + g6.object_addressed()
     cases += keyed
+    flags = g6.flag_combinations()
+    cases += flags
     n_exh = len(cases)
     n_chain = 200 if quick else 1500
     for _ in range(n_chain):
@@ -65,7 +68,7 @@ def main(tier, replay=None):
     distinct = len({json.dumps((c["table"], c["ops"]), sort_keys=True, default=str) for c in cases})
     extra = {
         "correspondence": {"cases": len(cases), "operations": n_ops,
-                           "exhaustive_cases": n_exh, "keyed_element_cases": len(keyed), "random_chain_cases": n_chain, "spec_element_cases": n_spec,
+                           "exhaustive_cases": n_exh, "keyed_element_cases": len(keyed), "flag_combination_cases": len(flags), "random_chain_cases": n_chain, "spec_element_cases": n_spec,
                            "spec_violations": sum(1 for _, c, _ in bad if c == 2),
                            "model_only_disagreements": sum(1 for _, c, _ in bad if c == 1),
                            "op_histogram": ophist, "addressing_mode_histogram": modes,
